@@ -224,7 +224,8 @@ def rr_rules(ctx, A):
             amount = None
             if inner is not None and is_call(inner, 'padding_type'):
                 amount = inner[2][-1]
-            if amount is not None and find_calls(amount, 'checked_sub'):
+            ds = diff_sem(rr, amount) if amount is not None else None
+            if ds is not None and any(is_call(x, 'Iterator::next') for x in walk(ds[0])):
                 pad_addr.append((c, amount))
             elif amount is not None:
                 pad_tail.append((c, amount))
@@ -244,17 +245,32 @@ def rr_rules(ctx, A):
         (pc, amount) = pad_addr[0]
         fc = field_push[0]
         # G1: overlap guard
-        cs = find_calls(amount, 'checked_sub')[0]
-        g1 = [g for g in gs if g.kind == 'reject' and g.pred[0] == 'is_none' and g.pred[1] == cs]
+        addr, base, _conds, cs = diff_sem(rr, amount)
+        if cs is not None:
+            g1 = [g for g in gs if g.kind == 'reject' and g.pred[0] == 'is_none' and g.pred[1] == cs]
+        else:
+            # the explicit spelling: `if address < end { bail }` in front of `address - end`
+            cs = ('bin', 'Sub', addr, base)
+            g1 = [g for g in gs if g.kind == 'reject' and cmp_parts(g.pred) and rr.dominates(g.block, pc['block']) and
+                  ((cmp_parts(g.pred)[0] == 'Lt' and strip(cmp_parts(g.pred)[1]) == strip(addr) and strip(cmp_parts(g.pred)[2]) == strip(base)) or
+                   (cmp_parts(g.pred)[0] == 'Gt' and strip(cmp_parts(g.pred)[2]) == strip(addr) and strip(cmp_parts(g.pred)[1]) == strip(base)))]
         ctx.ob(['C01', 'C03'], 'R-GUARD', 'G1|overlap-rejected', len(g1) == 1,
                'an explicit address below the current end is rejected: is_none(checked_sub(address, end)) ⇒ Err', loc(pc['span']), show(cs)[:200])
-        addr, base = cs[2][0], cs[2][1]
         elem_addr = unwrap_all(addr)
         # the address is the element's own Option<usize>, unfiltered: a pure access path from the loop element
         pure_addr = all(re.search(r'Iterator::next$|IntoIterator::into_iter$', c_[3]) for c_ in calls_in(addr)) and \
             not any(isinstance(x, tuple) and x[0] in ('bin', 'un', 'cast') for x in walk(addr))
         ok_e1 = pure_addr and (last_acc(base) and any(is_call(x, 'Iterator::next') for x in walk(addr)) and amount == ('payload', cs, 'Some', 0) or
                                (last_acc(base) and unwrap_all(amount) == cs))
+        # and under no further condition: the push runs whenever the element has an address that is not below the current end
+        pcs = push_conditions(rr, pc['block'])
+        def _is_room(c_):
+            cp_ = cmp_parts(c_)
+            return bool(cp_) and ((cp_[0] == 'Ge' and strip(cp_[1]) == strip(addr) and strip(cp_[2]) == strip(base)) or
+                                  (cp_[0] == 'Le' and strip(cp_[2]) == strip(addr) and strip(cp_[1]) == strip(base)))
+        extra = [c_ for c_ in pcs if not (c_[0] == 'is_some' and strip(c_[1]) == strip(unwrap_all(addr))) and not _is_room(c_) and
+                 not (c_[0] == 'is_some' and strip(c_[1]) == cs)]
+        ok_e1 = ok_e1 and not _conds and not extra
         # and the padding branch is entered for every Some(address): the switch that guards it tests the element's field itself
         swp = [s_ for s_ in rr.switches() if s_['cond'][0] == 'discr' and any(rr.dominates(tgt, pc['block']) and lab == 'Some' for lab, tgt in s_['edges'])
                and any(is_call(x, 'Iterator::next') for x in walk(s_['cond'][1])) and strip(s_['cond'][1])[0] == 'field']
@@ -345,9 +361,12 @@ def rr_rules(ctx, A):
         # E2 trailing padding
         if pad_tail:
             (tc, amount) = pad_tail[0]
-            okamt = amount[0] == 'bin' and amount[1] == 'Sub' and unwrap_all(amount[2]) == tsv and last_acc(amount[3])
+            ds = diff_sem(rr, amount)
+            okamt = ds is not None and unwrap_all(ds[0]) == tsv and last_acc(ds[1])
             dom = [g for s in rr.switches() for lab, tgt in s['edges'] for g in [norm_pred(s['cond'], lab)]
                    if rr.dominates(tgt, tc['block']) and rr.pred(tgt) == [s['block']] and cmp_parts(g)]
+            # conditions folded into a combinator chain whose payload is the amount
+            dom += [canon_pred(c_) for c_ in (ds[2] if ds else []) if cmp_parts(canon_pred(c_))]
             okg = False
             for g in dom:
                 op, a, b = cmp_parts(g)
@@ -355,6 +374,17 @@ def rr_rules(ctx, A):
                     op, a, b = SWAP[op], b, a
                 if last_acc(a) and unwrap_all(b) == tsv and op in ('Lt', 'Le'):
                     okg = True
+            # and under no further condition
+            def _is_short(c_):
+                cp_ = cmp_parts(c_)
+                if not cp_:
+                    return False
+                op, a, b = cp_
+                if last_acc(b) and unwrap_all(a) == tsv:
+                    op, a, b = SWAP[op], b, a
+                return last_acc(a) and unwrap_all(b) == tsv and op in ('Lt', 'Le')
+            extra2 = [c_ for c_ in push_conditions(rr, tc['block']) if not (c_[0] == 'is_some' and strip(c_[1]) == tsv) and not _is_short(c_)]
+            okg = okg and not extra2
             ctx.ob(['C02', 'C20'], 'R-EXPR', 'E2|trailing-padding', okamt and okg,
                    'trailing padding is declared size − current end, under current end {<,<=} declared size: %s' % show(amount)[:120], loc(tc['span']))
         else:
@@ -753,6 +783,44 @@ def tdb_rules(ctx, A):
     census(ctx, A)
 
 
+def push_conditions(fn, block):
+    """the atomic conditions under which `block` runs (every dominating switch edge outside `?` and loop drivers), combinator
+    chains unfolded: [predicate]"""
+    from mirlib import _edge_conds, opt_sem, conj_simplify
+    out = []
+    for _b, c, lab in _edge_conds(fn, block):
+        p = norm_pred(c, lab)
+        if p[0] == 'is_some' and strip(p[1])[0] == 'call':
+            conds, _v = opt_sem(fn, p[1])
+            out.extend(canon_pred(x) for x in conj_simplify(conds))
+        else:
+            out.append(p)
+    return out
+
+
+def diff_sem(fn, amount):
+    """a padding amount as a difference: (minuend, subtrahend, conditions folded into the expression, the checked_sub call or None)
+    for `a.checked_sub(b)` taken out of its Some, for `a - b`, and for the payload of a combinator chain ending in one of them"""
+    from mirlib import opt_sem, conj_simplify
+    x = strip(amount)
+    if x[0] == 'payload' and x[2] == 'Some':
+        inner = strip(x[1])
+        if is_call(inner, 'checked_sub') and len(inner[2]) == 2 and re.search(r'::checked_sub$', inner[1]):
+            return inner[2][0], inner[2][1], [], inner
+        conds, v = opt_sem(fn, inner)
+        v = strip(v)
+        if v[0] == 'bin' and v[1] == 'Sub':
+            conds = [c for c in conj_simplify(conds) if not (c[0] == 'is_some' and strip(c[1])[0] in ('var', 'arg', 'field'))]
+            return v[2], v[3], conds, None
+        return None
+    u = unwrap_all(x)
+    if is_call(u, 'checked_sub') and len(u[2]) == 2:
+        return u[2][0], u[2][1], [], u
+    if x[0] == 'bin' and x[1] == 'Sub':
+        return x[2], x[3], [], None
+    return None
+
+
 def covers_each_iteration_exempt(fn, g, exempt_edges):
     """like covers_each_iteration, but the loop needs to lie on every path to success only outside exempt edges"""
     L = innermost_loop(fn, g.block)
@@ -778,7 +846,10 @@ EXPECTED_OWN = [
     ('size-mult', lambda g: bool(cmp_parts(g.pred)) and not _no_rem(g), 'size multiple of alignment'),
     ('lcm', lambda g: bool(find_calls(g.pred, 'util::lcm')), 'alignment >= field alignments'),
     ('pow2', lambda g: bool(find_calls(g.pred, 'is_power_of_two')), 'alignment is a power of two'),
-    ('overlap', lambda g: g.pred[0] == 'is_none' and is_call(g.pred[1], 'checked_sub'), 'overlap'),
+    ('overlap', lambda g: (g.pred[0] == 'is_none' and is_call(g.pred[1], 'checked_sub')) or
+     (bool(cmp_parts(g.pred)) and _no_rem(g) and cmp_parts(g.pred)[0] in ('Lt', 'Gt') and
+      any(is_call(x, 'Iterator::next') for x in walk(cmp_parts(g.pred)[1 if cmp_parts(g.pred)[0] == 'Lt' else 2])) and
+      strip(cmp_parts(g.pred)[2 if cmp_parts(g.pred)[0] == 'Lt' else 1])[0] == 'field' and strip(cmp_parts(g.pred)[2 if cmp_parts(g.pred)[0] == 'Lt' else 1])[2] == 'last_address'), 'overlap'),
     ('vftable-first', lambda g: bool(cmp_parts(g.pred)) and cmp_parts(g.pred)[0] == 'Ne' and is_int(cmp_parts(g.pred)[2], 0) and bool(find_calls(g.pred, 'Iterator::enumerate')), 'vftable block must come first'),
     ('dup-method', lambda g: is_call(g.pred, 'contains'), 'duplicate method'),
     ('defaultable-path', lambda g: g.pred[0] == 'is_none' and is_call(g.pred[1], 'get_defaultable_type_path'), 'defaultable field kind'),
